@@ -225,6 +225,7 @@ LEVEL_TEXT = (
     "Bounded-exhaustive relation checking: every base cell of the enumerated lattice (relation x kind x process x PTO x scheme x target x Q2 x 4 x-points) "
     "is executed on the real run_yadism for all members of the partition and the additivity identity is checked on every operator entry and every order key "
     "at 1e-12 relative to the sum of absolute terms (plus 1e-12 of the largest entry of the tensor, the rounding scale of the flavour contractions); ZM-VFNS total==light and None=='all' are demanded bit-for-bit."
+    " A sub-lattice crosses R1-R4 with TMC, non-canonical beams and cross-section kinds."
 )
 LEVEL_NOTE = (
     "Trusted: numpy arithmetic. The partition demanded for NfFF>=4 is total = light + massive flavours (documented design of heavylight). Cells outside the lattice "
